@@ -459,4 +459,13 @@ def gen_program(rng, max_vars=6, cap=4096, wide=False, depth=None):
     g = Gen(rng, decls, depth=depth or rng.choice([1, 2, 3, 3, 4, 5]))
     m = rng.choice([1, 1, 2, 3, 4])
     cons = [g.bool_(g.depth) for _ in range(m)]
+    if rng.random() < 0.12:
+        # one compound node (an n-ary-able operator on top) extended twice by the same operator: `a = p & q; a & r; a & s`
+        op = rng.choice(["and", "or", "add", "sub"])
+        if op in ("and", "or"):
+            a = [op, g.nonlit_bool(1) or ["bl", True], g.bool_(1)]
+            cons.append([rng.choice(["or", "iff", "xor"]), [op, a, g.bool_(1)], [op, a, g.bool_(1)]])
+        else:
+            a = [op, g.nonlit_int(1) or ["il", 1], g.int_(1)]
+            cons.append(["cmp", rng.choice(CMPS), [op, a, g.int_(1)], [op, a, g.int_(1)]])
     return {"decls": decls, "constraints": cons}
